@@ -157,3 +157,12 @@ theorem C19_count_neighbors (pairs : List Coup) (u : Nat) :
   simp [List.count_eq_length_filter, List.filter_map, Function.comp_def]
 
 example : countNeighbors [(0, 1, [0, 0]), (1, 0, [1, 0]), (1, 0, [0, 1])] 0 = 3 := by decide
+
+/-- `count_neighbors(u, 'K_all-all')` of the multi-species lattice is `N_species` times `count_neighbors(u // N, 'K')`
+of the simple lattice: every species sees every species of each simple neighbour. -/
+theorem C19_multispecies_count_neighbors (nsp : Nat) (h : 0 < nsp) (val : List Coup) (u : Nat) :
+    countNeighbors (pairsAll nsp val) u = nsp * countNeighbors val (selfUToSimpleU nsp u) :=
+  countNeighbors_pairsAll nsp h val u
+
+example : countNeighbors (pairsAll 2 [(0, 1, [0]), (1, 0, [1])]) 3 = 4 ∧
+    countNeighbors [(0, 1, [0]), (1, 0, [1])] (selfUToSimpleU 2 3) = 2 := by decide
